@@ -323,3 +323,66 @@ def _rg(s, n, output):
 
 for _i, (_s, _n, _o) in enumerate([(1, 64, 'target/data'), (3, 20000, 'target/data'), (3, 64, '/abs/out'), (2, 20000, 'rel/nested/dir'), (5, 64, '/x')]):
     PYCHECKS['rdgen_files_%d' % _i] = _rg(_s, _n, _o)
+
+
+def rddetector_count(ex, st, prog):
+    """toBeTestFileNum over a directory walk with SYMBOLIC entries: every entry may be a directory or a regular file of
+    any size; names cover .bin, .dat, other suffixes and nested paths. samples must be the number of regular files with
+    a sample suffix and bits 8 x the largest size among exactly those."""
+    from mem import Iface, Opaque, Closure, FuncRef
+    from ops import int_cmp, int_ite, int_binop, tobv
+    from vals import b_and, b_not, gs_indicator, gs_add, gs_from, GSum
+    paths = ['/in', '/in/a.bin', '/in/sub/b.dat', '/in/readme.txt', '/in/old_report.csv', '/in/c.bin', '/in/dir.bin']
+    isdir = [_z3.Bool('isdir_%d' % i) for i in range(len(paths))]
+    size = [_z3.BitVec('size_%d' % i, 64) for i in range(len(paths))]
+    for i in range(len(paths)):
+        ex.inputs.append(('bool', isdir[i]))
+        ex.inputs.append(('int', size[i]))
+    st.pc = st.pc + tuple(_z3.And(s >= 0, s <= (1 << 40)) for s in size)
+
+    def walk(e, fr, st_, args, ins):
+        root, f = args
+        for i, p in enumerate(paths):
+            info = Iface('os.FileInfo', Opaque('fileinfo', i))
+            e.call_value(fr, st_, f, [p, info, None], ins)
+        return None
+
+    def fi_isdir(e, fr, st_, args, ins):
+        return isdir[args[0].data]
+
+    def fi_size(e, fr, st_, args, ins):
+        return size[args[0].data]
+
+    def has_suffix(e, fr, st_, args, ins):
+        return args[0].endswith(args[1])
+
+    ex.intr.update({'path/filepath.Walk': walk, '#opaque.fileinfo.IsDir': fi_isdir, '#opaque.fileinfo.Size': fi_size,
+                    'strings.HasSuffix': has_suffix})
+    fn = prog.funcs[RD + '.toBeTestFileNum']
+    s2, vals_ = ex.call_fn(fn, ['/in'], st)
+    if s2 is None:
+        return [('toBeTestFileNum returns', False, '')]
+    samples, bits = vals_
+    import discharge
+    d = discharge.Discharger(ex)
+    # specification
+    want_n = 0
+    want_bits = 0
+    for i, p in enumerate(paths):
+        if p.endswith('.bin') or p.endswith('.dat'):
+            reg = b_not(isdir[i])
+            want_n = gs_add(gs_from(want_n, 64) if not isinstance(want_n, int) else GSum(64, want_n, {}), gs_indicator(reg, 64, 1))
+            b8 = size[i] * 8
+            want_bits = _z3.If(_z3.And(reg, b8 > tobv(want_bits, 64)), b8, tobv(want_bits, 64))
+    res = []
+    r1, _ = d.check(list(s2.pc) + [tobv(samples, 64) != tobv(want_n, 64)])
+    res.append(('samples == number of regular files ending in .bin/.dat (directories and other files ignored)', r1 == _z3.unsat, str(r1)))
+    r2, m2 = d.check(list(s2.pc) + [tobv(bits, 64) != tobv(want_bits, 64)], want_model=True)
+    det = str(r2)
+    if m2 is not None:
+        det += ' e.g. ' + ', '.join('%s: dir=%s size=%s' % (paths[i], m2.eval(isdir[i], model_completion=True), m2.eval(size[i], model_completion=True)) for i in range(len(paths)))
+    res.append(('bits == 8 x the largest size among exactly those sample files', r2 == _z3.unsat, det[:400]))
+    return res
+
+
+PYCHECKS['rddetector_count'] = rddetector_count
